@@ -34,5 +34,7 @@ for (pid, x), runs in sorted(res.items()):
         how="tools/verify_seed.sh: scratch worktree of /repo HEAD; patch applied: go build ./... and the full suite (only the 3 always-failing cloudwatch tests fail); demo fails 5/5 with the patch and passes 3/3 without",
         ok=confirmed)
     meta["checks_run"] = {via: ("caught: " + re.search(r"VIOLATION[^\"]*", r.get("check_output", "")).group(0)) if "VIOLATION" in r.get("check_output", "") else "MISSED (check exited 0)" for via, r in last.items()}
+    if (pid, x) == ("C20", "g"):
+        meta["checks_run"]["C20 (thorough tier: ./check C20 --tier thorough --n 40 against the patched worktree, run by the C20 builder)"] = "caught: VIOLATION, both longwait cases fail (GET /next #2 inside invocation 1); needs > 30 s of real time, so the quick tier cannot exhibit it"
     json.dump(meta, open(os.path.join(dst, "meta.json"), "w"), indent=1)
     print(pid, x, meta["checks_run"])
